@@ -86,8 +86,8 @@ def lookup(world, args):
 def check_shape(case):
     reset_library()
     kind, dims = case['kind'], case['dims']
-    model = new_model(seed=1)
-    world = mk(model, kind, dims, case.get('wrap', False))
+    model = None if case.get('no_model') else new_model(seed=1)      # a world built without a model (as the library's
+    world = mk(model, kind, dims, case.get('wrap', False))           # own tests build Environment(None))
     if case.get('bystanders', True):
         # other grid worlds of other shapes built (and used) afterwards in the same process must not disturb this one
         others = [Envs.GridWorld(new_model(seed=2), 3, 4), Envs.DiscreteWorld(new_model(seed=3), 2, 3, 2),
@@ -121,6 +121,14 @@ def check_shape(case):
                     # integer call afterwards must still give a plain integer usable as a row index
                     fid = Envs.discrete_grid_pos_to_id(float(x), float(y), world.width, float(z), world.height)
                     cid = Envs.discrete_grid_pos_to_id(x, y, world.width, z, world.height)
+                    # coordinates given as bools (x = True is the coordinate 1): the id is still a plain integer
+                    if max(x, y, z) <= 1:
+                        bid = Envs.discrete_grid_pos_to_id(bool(x), bool(y), world.width, bool(z), world.height)
+                        if type(bid) is not int or bid != cid:
+                            raise Violation(f'id of cell {x, y, z} given as bools: {bid!r}', expected=cid, observed=repr(bid))
+                        brow = lookup(world, [bool(v) for v in [x, y, z][:NARG.get(kind, 3)]])
+                        if tuple(brow['pos']) != (x, y, z):
+                            raise Violation(f'get_cell with bool coordinates {x, y, z} on shape {dims} returned another cell')
                     if fid != cid or type(cid) is not int:
                         raise Violation(f'id of cell {x, y, z}: integer call gives {cid!r}, float call {fid!r}',
                                         expected='the same number, an int for int coordinates', observed=[cid, fid])
@@ -384,6 +392,8 @@ def run(ctx):
     cases += [{'leg': 'shape', 'kind': k, 'dims': d, 'wrap': w} for w in (False, True) for k, d in
               (('slab', [3, 0, 2]), ('slab', [2, 0, 3]), ('slab', [3, 2, 4]), ('column', [0, 0, 4]), ('column', [2, 1, 3]),
                ('flipped', [3, 2, 2]), ('flipped', [1, 4, 2]))]
+    cases += [{'leg': 'shape', 'kind': k, 'dims': d, 'wrap': False, 'no_model': True} for k, d in
+              (('line', [4]), ('grid', [3, 2]), ('discrete', [2, 0, 3]), ('discrete', [2, 2, 2]))]
     cases += [{'leg': 'big', 'kind': 'line', 'dims': [40000]}, {'leg': 'big', 'kind': 'discrete', 'dims': [0, 33000, 0]},
               {'leg': 'big', 'kind': 'discrete', 'dims': [0, 0, 70000]}, {'leg': 'big', 'kind': 'discrete', 'dims': [1, 1, 66000]},
               {'leg': 'big', 'kind': 'discrete', 'dims': [48, 40, 36]}]
